@@ -885,6 +885,25 @@ static string MsgClass(const string& m) {
   return "other";
 }
 
+// "dependency cycle: a -> b -> a" -> ["a","b","a"]
+static string CyclePath(const string& m) {
+  size_t p = m.find("dependency cycle: ");
+  if (p == string::npos) return "[]";
+  string rest = m.substr(p + 18);
+  size_t br = rest.find(" [-w");
+  if (br != string::npos) rest = rest.substr(0, br);
+  while (!rest.empty() && (rest.back() == '\n' || rest.back() == ' ')) rest.pop_back();
+  vector<string> parts;
+  size_t pos = 0;
+  while (true) {
+    size_t a = rest.find(" -> ", pos);
+    if (a == string::npos) { parts.push_back(rest.substr(pos)); break; }
+    parts.push_back(rest.substr(pos, a - pos));
+    pos = a + 4;
+  }
+  return JStrs(parts);
+}
+
 static void WriteManifest(Scenario& sc) { g_disk.Put("build.ninja", RenderManifest(sc), false); }
 
 // One full execution of a scenario's history with the current chooser.
@@ -932,7 +951,7 @@ static void RunOnce(Scenario sc /* by value: versions change */, long run_no, in
       } else if (r.sig || r.code < 0) {
         Emit("{\"e\":\"Abnormal\",\"status\":" + to_string(r.status) + ",\"tree\":" + g_disk.Tree() + "}");
       } else {
-        Emit("{\"e\":\"Exit\",\"code\":" + to_string(r.code) + ",\"msg\":" + JEsc(r.msg) + ",\"mc\":" + JEsc(MsgClass(r.msg)) + ",\"fifo\":" + to_string(left) +
+        Emit("{\"e\":\"Exit\",\"code\":" + to_string(r.code) + ",\"msg\":" + JEsc(r.msg) + ",\"mc\":" + JEsc(MsgClass(r.msg)) + ",\"cyc\":" + CyclePath(r.msg) + ",\"fifo\":" + to_string(left) +
              ",\"tree\":" + g_disk.Tree() + ",\"logs\":" + logs + "}");
       }
       continue;
